@@ -1,3 +1,4 @@
+import IdModel.Doc.QueryStr
 import IdModel.Doc.Model
 import Driver.Util
 /-! Line-protocol handler for C04 (document histories). See harness/src/c04.rs for the request grammar. -/
@@ -146,6 +147,11 @@ def runOps (d : Doc) : List String → List String
 
 def handle (args : List String) : String :=
   match args with
+  | ["qstr", q, d, f] =>
+    -- `DIDUrlQuery::matches` at string level: query string, DID string and fragment of the identifier asked about
+    match Driver.unhex q, Driver.unhex d, Driver.unhex f with
+    | some q, some d, some f => if IdModel.Doc.QueryStr.matchesStr q d (if f.isEmpty then none else some f) then "match" else "nomatch"
+    | _, _, _ => "bad-request"
   | "hist" :: doc :: ops =>
     let ops := match ops with
       | "|" :: r => r
